@@ -32,21 +32,21 @@ type E struct {
 	W []int `json:"w,omitempty"` // whitespace codes around operators / separators
 }
 
-func Int(i int64) *E           { return &E{K: "int", I: i} }
-func Str(s string) *E          { return &E{K: "str", S: s} }
-func Bool(b bool) *E           { return &E{K: "bool", I: b2i(b)} }
-func Null() *E                 { return &E{K: "null"} }
-func Var(n string) *E          { return &E{K: "var", S: n} }
-func Attr(e *E, n string) *E   { return &E{K: "attr", S: n, A: []*E{e}} }
-func Idx(e, i *E) *E           { return &E{K: "idx", A: []*E{e, i}} }
-func Un(op string, e *E) *E    { return &E{K: "un", S: op, A: []*E{e}} }
+func Int(i int64) *E            { return &E{K: "int", I: i} }
+func Str(s string) *E           { return &E{K: "str", S: s} }
+func Bool(b bool) *E            { return &E{K: "bool", I: b2i(b)} }
+func Null() *E                  { return &E{K: "null"} }
+func Var(n string) *E           { return &E{K: "var", S: n} }
+func Attr(e *E, n string) *E    { return &E{K: "attr", S: n, A: []*E{e}} }
+func Idx(e, i *E) *E            { return &E{K: "idx", A: []*E{e, i}} }
+func Un(op string, e *E) *E     { return &E{K: "un", S: op, A: []*E{e}} }
 func Bin(op string, a, b *E) *E { return &E{K: "bin", S: op, A: []*E{a, b}} }
-func Cond(c, a, b *E) *E       { return &E{K: "cond", A: []*E{c, a, b}} }
+func Cond(c, a, b *E) *E        { return &E{K: "cond", A: []*E{c, a, b}} }
 func Filt(e *E, name string, args ...*E) *E {
 	return &E{K: "filt", S: name, A: append([]*E{e}, args...)}
 }
-func Call(name string, args ...*E) *E { return &E{K: "call", S: name, A: args} }
-func List(items ...*E) *E             { return &E{K: "list", A: items} }
+func Call(name string, args ...*E) *E  { return &E{K: "call", S: name, A: args} }
+func List(items ...*E) *E              { return &E{K: "list", A: items} }
 func Hash(keys []string, vals []*E) *E { return &E{K: "hash", Ks: keys, A: vals} }
 func Test(e *E, name string, neg bool, args ...*E) *E {
 	return &E{K: "test", S: name, N: neg, A: append([]*E{e}, args...)}
